@@ -12,7 +12,7 @@ def main(tier: str, seed: int) -> int:
             "RENAMING, optimize(duplication only), all subsets of the fact universe, all answer sets; multiset equality "
             "on voc(P) with costs. non-trivial = duplication changed the program and the outcome varies")
     bounds = {"sets": len(fam.SETS), "contexts": len(fam.CONTEXTS), "extras": len(fam.EXTRAS), "renamings": len(fam.RENAMES)}
-    return generic.family_main(PROP, tier, seed, fam.jobs(tier), rule, bounds)
+    return generic.family_main(PROP, tier, seed, generic.with_variants(fam.jobs(tier), tier), rule, dict(bounds, variants=True))
 
 
 def replay(path: str) -> int:
